@@ -27,6 +27,8 @@ var dupScenarios = []dupScenario{
 	{"Reject||Reject", []string{"Propose:c1"}, [2]string{"Reject:B", "Reject:B"}, "c1"},
 	{"Propose(c1)||Propose(c1)", nil, [2]string{"Propose:c1", "Propose:c1"}, "c1"},
 	{"Propose(s1)||Propose(s1)", nil, [2]string{"Propose:s1", "Propose:s1"}, "s1"},
+	// paid contract (data and spice): concurrent proposals must leave it awaiting, unsealed
+	{"Propose(m1)||Propose(m1)", nil, [2]string{"Propose:m1", "Propose:m1"}, "m1"},
 	// the second client re-proposes the contract and confirms again while the first confirmation is in flight:
 	// the only way two confirmations of one contract can both get past the awaiting cache and reach CreateLeaf
 	{"Confirm||Propose(c1),Confirm", []string{"Propose:c1"}, [2]string{"Confirm:B", "Propose:c1,Confirm:B"}, "c1"},
@@ -114,7 +116,7 @@ func dupOracle(sc dupScenario) func(x *sched.X, r *vsched.Result) []common.Viola
 			evs := strings.Split(sc.calls[i], ",")
 			for j, c := range strings.Split(cs, ",") {
 				// success of a sealing call (everything except the proposal of a contract)
-				if c == "ok" && !(strings.HasPrefix(evs[j], "Propose:c1") && len(sc.setup) > 0) {
+				if c == "ok" && !(isContractProposal(evs[j]) && len(sc.setup) > 0) {
 					anyOK = true
 				}
 				if c == "panic" {
@@ -128,14 +130,14 @@ func dupOracle(sc dupScenario) func(x *sched.X, r *vsched.Result) []common.Viola
 		for _, p := range r.Panics {
 			add("C16.no-panic", "C16.panic/goroutine/"+sc.name, "a goroutine spawned by the handlers panicked: "+p.Value+" in "+p.Where)
 		}
-		sealing := !strings.HasPrefix(sc.calls[0], "Propose:c1")
+		sealing := !isContractProposal(sc.calls[0])
 		switch {
 		case o.sealedN > 1:
 			add("C16.sealed-once", "C16.sealed-twice/"+sc.name, fmt.Sprintf("%s is sealed in %d vertices (answers %v)", sc.target, o.sealedN, o.results))
 		case !sealing && o.sealedN > 0:
 			add("C16.receiver-acts", "C16.sealed-without-receiver/Propose/on-proposal", fmt.Sprintf("contract %s was sealed by concurrent proposals", sc.target))
 		}
-		if sc.target == "c1" {
+		if sc.target != "s1" { // contracts
 			// (a contract proposed again after it was sealed is held as awaiting again - also sequentially, see RefNotary)
 			if o.sealedN >= 1 && o.awaiting && !reproposes {
 				add("C16.awaiting-consistent", "C16.awaiting-after-sealed/"+sc.name, fmt.Sprintf("%s is sealed and still awaiting (answers %v): %s", sc.target, o.results, o.final.stateOf()))
@@ -149,6 +151,10 @@ func dupOracle(sc dupScenario) func(x *sched.X, r *vsched.Result) []common.Viola
 		}
 		return out
 	}
+}
+
+func isContractProposal(ev string) bool {
+	return strings.HasPrefix(ev, "Propose:c1") || strings.HasPrefix(ev, "Propose:m1")
 }
 
 func c16Scenarios() map[string]*sched.Scenario {
